@@ -572,12 +572,15 @@ def run_case(case):
         for op in ops[:3]:
           if op.get('k') == 'undo' and uas:
             continue                      # undo travels alone
+          if op.get('k') == 'link' and op.get('meta') and uas:
+            continue                      # so does a metadata link: whether the data was reconciled is judged
+                                          # on the state right before it
           ua = resolve(d, op, st_)
           if ua is not None and ua and isinstance(ua[0], list):
             uas.extend(ua)
           elif ua is not None:
             uas.append(ua)
-            if ua[0] == 'ApplyUndoActions':
+            if ua[0] == 'ApplyUndoActions' or is_meta_link([ua]):
               uas = [ua]
               break
         if not uas:
